@@ -79,11 +79,11 @@ def main(argv):
                     rep.violation(clause, {"src": m["src"], "feats": m["feats"]}, detail={"exc": m["exc"], "stage": m["stage"]},
                                   signature={"clause": clause.split("/")[0], "exc": m["exc"], "outside": m["outside"]})
         # all decision paths, skeleton level (Skeleton.tla): product of the flat graph with the generated code
-        skres = tlc.run_shards("Skeleton", "INIT Init\nNEXT Next\nINVARIANT SamePaths\nCHECK_DEADLOCK FALSE\n",
+        skres = tlc.run_shards("Skeleton", "INIT Init\nNEXT Next\nINVARIANT SamePaths\nALIAS Small\nCHECK_DEADLOCK FALSE\n",
                                [{"CASES": t[1].replace("census-", "skeleton-"), "MODE": "real"} for t in tasks], jobs=args.jobs, workers=1, timeout=3000)
         tlc.require_ok(skres, "Skeleton")
         # the transcription of the code generator: conformance with the real output and all paths of ITS output (design level)
-        imres = tlc.run_shards("Skeleton", "INIT Init\nNEXT Next\nINVARIANT SamePaths\nINVARIANT NoDrift\nCHECK_DEADLOCK FALSE\n",
+        imres = tlc.run_shards("Skeleton", "INIT Init\nNEXT Next\nINVARIANT SamePaths\nINVARIANT NoDrift\nALIAS Small\nCHECK_DEADLOCK FALSE\n",
                                [{"CASES": t[1].replace("census-", "impl-"), "MODE": "impl"} for t in tasks], jobs=args.jobs, workers=1, timeout=3000, heap="3g")
         tlc.require_ok(imres, "Skeleton (CodegenImpl)")
         cg = {"states": 0, "drift": 0, "design_failures": 0}
